@@ -10,7 +10,7 @@ ASSUMPTIONS = ["oracle: dense Python rows and numpy applied per row / per column
                "positive-step slice, negative-step slices with bounds inside the rows, and a non-empty result in every selected row",
                "RunLength2dArray has no max / mean / argmax methods: those are explored on the ragged variant only"]
 REQUIRED_FEATURES = ["variant_2d", "variant_ragged", "variant_ragged_from_matrix", "run_straddles_row_boundary", "single_run_row", "left_operand",
-                     "column_operand", "neg_step_colslice", "from_intervals", "row_mask", "unequal_rows"]
+                     "column_operand", "neg_step_colslice", "from_intervals", "row_mask", "unequal_rows", "narrow_or_float_values"]
 BOUNDS = {"quick": "rows<=2 x len<=3 (+ (5,), (4,5), (5,3)) x 5 run patterns x {RunLength2dArray.from_array, RunLengthRaggedArray.from_ragged_array, "
                    ".from_array} x all listed operations; from_intervals: L<=4, <=2 intervals, 3 value kinds",
           "thorough": "rows<=3 x len<=3 and rows<=2 x len<=5; from_intervals L<=5, <=3 intervals"}
@@ -51,6 +51,10 @@ def cases(shard, tier):
             if v == "2d" and g in ("colint", "colslice"):
                 continue
             yield ["arr", lens, pat, v, g]
+        # narrow / unsigned element types with jumps that overflow the element type (differences, sums)
+        for vk in ("i8", "u8", "f8"):
+            for g in ("basic", "red", "col"):
+                yield ["arr", lens, pat, v, g, vk]
 
 
 def fill(lens, pat):
@@ -81,14 +85,17 @@ def dense(x):
     return x
 
 
-def _mk(rows, variant):
+VALUE_KINDS = {"i64": (np.int64, None), "i8": (np.int8, [100, -100, -128, 127]), "u8": (np.uint8, [200, 3, 250, 0]), "f8": (np.float64, [0.5, -2.25, 8.0, 0.0])}
+
+
+def _mk(rows, variant, dt=np.int64):
     from npstructures import RunLength2dArray, RunLengthRaggedArray, RaggedArray
     if variant == "ragged":
-        flat = np.array([v for r in rows for v in r], dtype=np.int64)
+        flat = np.array([v for r in rows for v in r], dtype=dt)
         return RunLengthRaggedArray.from_ragged_array(RaggedArray(flat, [len(r) for r in rows]))
     if variant == "2d":
-        return RunLength2dArray.from_array(np.array(rows, dtype=np.int64))
-    return RunLengthRaggedArray.from_array(np.array(rows, dtype=np.int64))
+        return RunLength2dArray.from_array(np.array(rows, dtype=dt))
+    return RunLengthRaggedArray.from_array(np.array(rows, dtype=dt))
 
 
 def _cmp(acc, name, exp, f, close=False):
@@ -133,8 +140,13 @@ def _ref_rows(rows, rs):
 def check(case, acc):
     if case[0] == "iv":
         return _check_iv(case, acc)
-    _, lens, pat, variant, group = case
+    _, lens, pat, variant, group = case[:5]
+    vk = case[5] if len(case) > 5 else "i64"
+    dt, table = VALUE_KINDS[vk]
     rows = fill(lens, PATS[pat])
+    if table is not None:
+        acc.feature("narrow_or_float_values")
+        rows = [[table[v] for v in r] for r in rows]
     n = len(rows)
     acc.feature("variant_" + variant)
     flatv = [v for r in rows for v in r]
@@ -149,9 +161,9 @@ def check(case, acc):
         acc.feature("unequal_rows")
     if any(len(set(r)) > 1 for r in rows):
         acc.nontrivial()
-    mk = lambda: _mk(rows, variant)
-    acc.state((tuple(lens), pat, variant))
-    arr = [np.array(r) for r in rows]
+    mk = lambda: _mk(rows, variant, dt)
+    acc.state((tuple(lens), pat, variant, vk))
+    arr = [np.array(r, dtype=dt) for r in rows]
     m = max(lens)
     cols = [[r[j] for r in rows if len(r) > j] for j in range(m)]
     if group == "basic":
@@ -185,7 +197,7 @@ def check(case, acc):
                 e = [getattr(np, fn)(a).item() for a in arr]
                 _cmp(acc, f"np.{fn}(axis=-1)", e, lambda: getattr(np, fn)(mk(), axis=-1), close=True)
     elif group == "col":
-        _cmp(acc, "sum(axis=0)", [sum(c) for c in cols], lambda: mk().sum(axis=0))
+        _cmp(acc, "sum(axis=0)", [sum(c) for c in cols], lambda: mk().sum(axis=0), close=(vk == "f8"))
         if variant != "2d":
             _cmp(acc, "mean(axis=0)", [float(np.mean(c)) for c in cols], lambda: mk().mean(axis=0), close=True)
             _cmp(acc, "col_counts", [len(c) for c in cols], lambda: mk().col_counts())
